@@ -231,3 +231,8 @@ ORDER_ROLE_OF_BUILDERS = {
 #   __iand__/__ior__/__isub__/__ixor__ (MutableSet): discard / add in place                       -> first-insertion order of self kept
 # An ordered set that wants "ordered by the first operand" must therefore define __and__ itself.
 ABC_SET_MIXINS_ORDERED_BY_OTHER = {"__and__": "Set.__and__ iterates `other` and keeps what is in self"}
+# Corrected after the fifth hunt: "(other - self)" in Set.__xor__ is *other's* operator when other is itself a Set — a dict keys view, set,
+# frozenset keep their own __sub__, which answers with a plain (hash ordered) set: OrderedSet([7, 0]) ^ {10: .., 3: .., 1: .., 0: ..}.keys()
+# iterates 7, 1, 10, 3, and with text elements the order changes with PYTHONHASHSEED.  (__or__ chains self and other itself, __sub__
+# iterates self: those stay ordered whatever the other operand is.)
+ABC_SET_MIXINS_DELEGATING_TO_OTHER = {"__xor__": "Set.__xor__ computes (self - other) | (other - self); a Set operand answers `other - self` with a plain set"}
